@@ -1,4 +1,4 @@
-import UsualProofs.C01.NoDrift
+import UsualProofs.C01.MoveDelta
 import UsualProofs.C01.LiftThm
 /-!
 # C19 — talloc memory limit is a hard cap whose accounting never drifts
@@ -19,8 +19,8 @@ and `Anc s a x` = "`a` is a proper ancestor of `x` along primary-parent pointers
 `acctOK_iff` proves the two equal in every well-formed state with acyclic holder graph.
 
 `Reach` = states reached from the empty heap by public operations whose arguments are live user
-objects and that keep the holder graph acyclic (`OpOK`, as in C01), every operation except
-`talloc_disable_null_tracking`, with the two ghost flags of the model clear (they are printed on
+objects and that keep the holder graph acyclic (`OpOK`, as in C01; every operation,
+`talloc_disable_null_tracking` included), with the two ghost flags of the model clear (they are printed on
 every state of every correspondence run and were never set).
 -/
 namespace UsualProps.C19
@@ -95,7 +95,7 @@ refused or failing), talloc_free with refusing destructors and `throw_child`, ta
 with promotion to a referencing context, talloc_free_children, talloc_reference,
 talloc_steal / talloc_reparent, talloc_realloc (grow, shrink, failing, size 0),
 talloc_set_destructor, talloc_set_memlimit (new, re-configured on a populated context, lifted,
-nested) and talloc_enable_null_tracking.  Both forms: the Bool the driver evaluates, and the
+nested) and talloc_enable / talloc_disable_null_tracking.  Both forms: the Bool the driver evaluates, and the
 explicit sum. -/
 theorem cur_eq_charge (s : State) (h : Reach s) :
     acctOK s = true ∧
@@ -147,19 +147,43 @@ example :
     absState (runOps Cfg.fixed {} (setup ++ [.alloc (some 1) 10 false false, .realloc (some 1) 4 500 false])) =
     absState (runOps Cfg.fixed {} (setup ++ [.alloc (some 1) 500 false false])) := by decide
 
-/-- **moved_in_charge_released**: after any operation that moves chunks across a limit —
-talloc_steal / talloc_reparent in or out, promotion to a referencing context when the primary
-parent lets go, `throw_child` of a refusing child — the counters are again the sums over the
-tree *as it is now* (`chargeUnder` of the new state): what moved out is released from the
-limit it left, what moved in is charged to the limit it entered, with the same
-`ALIGN(size) + header` per chunk that allocation charged.  (Corollary of `cur_eq_charge`.) -/
-theorem moved_in_charge_released (s : State) (h : Reach s) (op : Op) (rk : Nat → Nat) (hrk : Ranked rk s)
-    (hop : OpOK rk s op) (hoof : (step Cfg.fixed s op).1.oof = false)
-    (hstuck : (step Cfg.fixed s op).1.stuck = false) :
-    acctOK (step Cfg.fixed s op).1 = true ∧
-    ∀ (l : Nat) (lb : Obj) (ctx : Nat), (step Cfg.fixed s op).1.get l = some lb → lb.kind = .limit →
-      lb.parent = some ctx → lb.lcur = chargeUnder (step Cfg.fixed s op).1 ctx l :=
-  cur_eq_charge _ (Reach.step s op rk h hrk hop hoof hstuck)
+open Classical in
+/-- **moved_in_charge_released** (before/after form): `talloc_steal(newp, o)` on a reachable
+state.  For every `.memlimit` chunk `l` of a context `ctx` outside the subtree of `o`, with
+`subCharge s o` = Σ `ALIGN(size) + sizeof(header)` over `o` and everything beneath it:
+
+  cur_after + (if ctx was above o before then subCharge else 0)
+    = cur_before + (if ctx is above o after then subCharge else 0)
+
+— a limit that `o` leaves is released by exactly the charge of the moved subtree, a limit that
+`o` enters is charged exactly that, a limit above both places (or neither) is unchanged; the
+amount is the same `ALIGN(size) + header` per chunk that allocation charged.  (Limits inside the
+moved subtree keep their counters: `chargeUnder_move_inside`.)  The same equation holds between
+any two reachable states that differ only in where one object hangs (`acct_move_delta`), which
+covers talloc_reparent, the promotion to a referencing context and `throw_child`. -/
+theorem moved_in_charge_released (s : State) (h : Reach s) (rk : Nat → Nat) (hrk : Ranked rk s)
+    (newp : Option Id) (o : Nat) (hop : OpOK rk s (.steal newp o))
+    (hoof : (step Cfg.fixed s (.steal newp o)).1.oof = false)
+    (hstuck : (step Cfg.fixed s (.steal newp o)).1.stuck = false)
+    (l : Nat) (lb lb' : Obj) (ctx : Nat) (hl : s.get l = some lb) (hk : lb.kind = .limit)
+    (hp : lb.parent = some ctx) (hl' : (step Cfg.fixed s (.steal newp o)).1.get l = some lb')
+    (hctx : ¬ InSub s o ctx) (hlo : ¬ InSub s o l) :
+    lb'.lcur + (if Anc s ctx o then subCharge s o else 0) =
+      lb.lcur + (if Anc (step Cfg.fixed s (.steal newp o)).1 ctx o then subCharge s o else 0) := by
+  obtain ⟨w, -, ac, -⟩ := reach_inv s h
+  obtain ⟨-, -, ac', -⟩ := reach_inv _ (Reach.step s _ rk h hrk hop hoof hstuck)
+  obtain ⟨m, wr'⟩ := steal_movedRel Cfg.fixed w hrk newp o hop.1 hop.2.1 hop.2.2
+  exact acct_move_delta m hrk wr' ac ac' l lb lb' ctx hl hk hp hl' hctx hlo
+
+open Classical in
+/-- the same for any two reachable states that differ only in where `t` hangs -/
+theorem moved_in_charge_released_general (s s' : State) (h : Reach s) (h' : Reach s') (t : Nat)
+    (rk : Nat → Nat) (hrk : Ranked rk s) (hrk' : Ranked rk s') (m : MovedRel s s' t)
+    (l : Nat) (lb lb' : Obj) (ctx : Nat) (hl : s.get l = some lb) (hk : lb.kind = .limit)
+    (hp : lb.parent = some ctx) (hl' : s'.get l = some lb') (hctx : ¬ InSub s t ctx) (hlo : ¬ InSub s t l) :
+    lb'.lcur + (if Anc s ctx t then subCharge s t else 0) =
+      lb.lcur + (if Anc s' ctx t then subCharge s t else 0) :=
+  acct_move_delta m hrk hrk' (reach_inv s h).2.2.1 (reach_inv s' h').2.2.1 l lb lb' ctx hl hk hp hl' hctx hlo
 
 /-- steal out releases `ALIGN(1000)+88 = 1088`, steal back in charges it again -/
 example :
